@@ -147,6 +147,11 @@ def parse_frame(f: bytes):
     return p
 
 
+def tcp_optlen(f: bytes) -> int:
+    p = parse_frame(f)
+    return p.doff * 4 - 20 if p is not None and p.proto == 6 and p.app is not None and p.doff >= 5 else 0
+
+
 def norm_frame(f: bytes, app_fn=None):
     """(app_fn: applied to a TCP / UDP payload before it is reported, e.g. runner.mask_app; every length field is then
     reported minus the number of bytes app_fn removed, so that two replies whose only difference is the width of a
@@ -163,9 +168,11 @@ def norm_frame(f: bytes, app_fn=None):
     if p.ety == 0x0806:
         return t + ("arp", p.arp)
     app, cut = (bytes(p.app) if p.app is not None else None), 0
+    if p.proto == 6 and p.app is not None and p.doff >= 5:
+        cut = p.doff * 4 - 20        # TCP options are left free by the properties: lengths are reported without them
     if app_fn is not None and app is not None and p.proto in (6, 17):
         app2 = app_fn(app)
-        cut, app = len(app) - len(app2), app2
+        cut, app = cut + len(app) - len(app2), app2
     if p.ipver == 4:
         hdr = p.l3[:p.ihl * 4]
         t += (4, p.ihl, p.total - cut, p.l3[6:8], p.ttl >= 1, p.proto, p.ip_src, p.ip_dst, csum(hdr) == 0)
@@ -177,7 +184,7 @@ def norm_frame(f: bytes, app_fn=None):
         return t + ("l3", p.l3)
     l4 = p.l4
     if p.proto == 6 and p.app is not None:
-        return t + ("tcp", p.sport, p.dport, p.seq, p.ack, p.doff, p.flags, p.win != 0, csum(ps(len(l4)) + l4) == 0, app)
+        return t + ("tcp", p.sport, p.dport, p.seq, p.ack, p.doff >= 5, p.flags, p.win != 0, csum(ps(len(l4)) + l4) == 0, app)
     if p.proto == 17 and p.app is not None:
         ok = (p.cks == 0 and p.ipver == 4) or csum(ps(len(l4)) + l4) == 0
         return t + ("udp", p.sport, p.dport, p.ulen - cut, p.cks != 0, ok, app)
